@@ -16,6 +16,7 @@
 #include "galois/PODResizeableArray.h"
 #include "galois/graphs/GraphHelpers.h"
 
+#include <signal.h>
 #include <sys/stat.h>
 
 using namespace c13;
@@ -428,9 +429,24 @@ int main(int argc, char** argv) {
 
   const unsigned NX    = H.thorough ? 8 : 7; // exhaustive prefix sums of <= NX nodes over degrees {0,1,2,5}
   const unsigned MAXP  = H.thorough ? 10 : 9; // part counts 1..MAXP (> NX: more parts than nodes)
-  const unsigned scale = H.thorough ? 6 : 1;
+  const unsigned scale = H.thorough ? 4 : 1;
 
-  char tmpl[] = "/var/tmp/verif-c13-XXXXXX";
+  // scratch directory for .gr files: /var/tmp/verif-c13-<pid>-XXXXXX; directories left behind by harness
+  // processes that died in a case (crash findings) are removed by the next process
+  if (DIR* d = opendir("/var/tmp")) {
+    while (dirent* e = readdir(d)) {
+      long pid = 0;
+      if (sscanf(e->d_name, "verif-c13-%ld-", &pid) == 1 && pid > 0 && kill((pid_t)pid, 0) != 0) {
+        std::string dir = std::string("/var/tmp/") + e->d_name;
+        for (const char* f : {"/fg.gr", "/og.gr", "/csr.gr"})
+          unlink((dir + f).c_str());
+        rmdir(dir.c_str());
+      }
+    }
+    closedir(d);
+  }
+  char tmpl[64];
+  snprintf(tmpl, sizeof tmpl, "/var/tmp/verif-c13-%ld-XXXXXX", (long)getpid());
   if (!mkdtemp(tmpl)) {
     perror("mkdtemp");
     return 2;
@@ -521,7 +537,7 @@ int main(int argc, char** argv) {
   }
 
   for (long k = H.firstCase(); k < H.endCase(); ++k) {
-    Rng rng(H.caseSeed(k));
+    Rng rng(mix(H.caseSeed(k), (uint64_t)H.paramInt("salt", 0))); // salt: other random inputs for the same plan
     Entry en = (size_t)k < exh.size() ? exh[k] : rnd[(k - exh.size()) % rnd.size()];
     std::string comp, fam, variant;
     switch (en.fam) {
